@@ -724,6 +724,30 @@ func TestC13UseDuringClose(t *testing.T) {
 		func(c *overlapCase) bool { return true })
 }
 
+// TestC09UseDuringClose: the same programs judged as C09 does - every individual call returns a
+// result that respects the lifetime rules (fully wired, constructed once per scope) or a documented error.
+func TestC09UseDuringClose(t *testing.T) {
+	g := kit.FullOpts()
+	g.OptionalBias = true
+	g.DisposableBias = true
+	oo := overlapOpts{Gen: g, AKinds: []string{"pclose", "close", "close"}, BKinds: []string{"get-wired", "get-wired", "get", "create"},
+		GateKind: []int{kit.GateCloseEnter, kit.GateCloseEnter, kit.GateInternal}, ExtraWarm: 8, ExtraScopes: 3}
+	runOverlapTest(t, "C09", "use-during-close",
+		"controlled two-thread programs: thread A closes a scope (or the provider) and is parked inside the Close() method of the n-th instance it disposes or at a schedule point of the disposal; thread B then resolves a service that is constructed now (optional dependencies on registered services preferred) or creates a scope on any live scope and runs until it returns or blocks; A is released; oracle: no panic, no hang, B's call returns a fully constructed, fully wired value or a documented (disposed) error, and the run satisfies the C02 ledger oracle; non-trivial = A was parked",
+		oo,
+		func(c *overlapCase) *Failure {
+			if f := c.checkOverlapResults("C09"); f != nil {
+				return f
+			}
+			obs, _ := c.X.observations()
+			if f := c.X.checkC02(obs); f != nil {
+				return fail("C09", "lifetime-rules", f.Oracle+"/"+f.Sig, "%s", f.Msg)
+			}
+			return nil
+		},
+		func(c *overlapCase) bool { return true })
+}
+
 // ---- C11 / C12: a Close parked inside an instance's Close() while an ancestor is closed ----
 
 func closeOverlapOpts() overlapOpts {
